@@ -87,8 +87,10 @@ def model_part(v, tier, clauses, props, seed_off=0):
     from . import algomodel as AM, algotrace as AT
     from .common import seed as vseed
     quick = tier == "quick"
-    shapes = ["pair", "unarypair", "isolated"] if quick else ["pair", "pair3", "unarypair", "parallel", "isolated", "isounary", "path3"]
-    insts, gres = AT.gen_instances(shapes, [0, 1, 2, -1], [0, 1, 3], n=1 if quick else 2, seed=vseed() + 2100 + seed_off)
+    # (three computations ticking three times each is beyond 20 minutes of TLC with the edge dump: the thorough tier stays with two
+    # connected computations, all three variants)
+    shapes = ["pair", "unarypair", "isolated"] if quick else ["pair", "pair3", "unarypair", "parallel", "isolated", "isounary"]
+    insts, gres = AT.gen_instances(shapes, [0, 1, 2, -1], [0, 1, 3], n=1, seed=vseed() + 2100 + seed_off)
     v.add_tlc(gres, "instance generation (Gen_Dcop) for Adsa.tla")
     if quick:
         insts = AM.spread(insts, 1, 3, offset=seed_off % 2)
@@ -96,9 +98,8 @@ def model_part(v, tier, clauses, props, seed_off=0):
     for k, inst in enumerate(insts):
         for var in (("A", "B", "C") if not quick else ("ABC"[k % 3], "ABC"[(k + 1) % 3])):
             all_i.append(dict(inst, variant=var, _key={"variant": var}))
-    consts = {"MaxTicks": 2 if quick else 3}
-    tot = AM.run_model(v, AdsaBinding(), all_i, consts, INVS, clauses, props, max_paths=400 if quick else 3000,
-                       edges_for=(lambda i: True) if quick else (lambda i: len(i["vars"]) <= 2))
+    consts = {"MaxTicks": 2}
+    tot = AM.run_model(v, AdsaBinding(), all_i, consts, INVS, clauses, props, max_paths=400 if quick else 1500)
     v.cov["adsa_model"] = dict(tot, invariants=INVS, max_ticks=consts["MaxTicks"])
     v.cov["replayed_paths"] = v.cov.get("replayed_paths", 0) + tot["paths"]
     v.cov["replayed_steps"] = v.cov.get("replayed_steps", 0) + tot["steps"]
